@@ -161,6 +161,10 @@ impl Variant {
                     return self.float_value.unwrap() as i64;
                 }
 
+                if let Ok(i) = self.string_value.parse::<i64>() {
+                    return i;
+                }
+
                 let int_value = self.string_value.parse::<usize>();
                 match int_value {
                     Ok(i) => i as i64,
